@@ -7,7 +7,7 @@
     [min burst window] bytes); afterwards the peer closes ([mode] 0), stalls (1) or fails (2).
     [grow] is the reallocation policy of [BytesMut::reserve], only assumed to keep its promise
     ([grow_ok]: the new capacity is at least [len + additional]). *)
-From KV Require Import Bytes RustInt Http1Read Http1ReadProofs Http1ReadParseProofs.
+From KV Require Import Bytes RustInt Http1Read Http1ReadProofs Http1ReadParseProofs Http1ReadLocalProofs Http1ReadLfProofs.
 Open Scope N_scope.
 
 (** parse (print g) = g.  [g] ranges over the request grammar [greq_ok]: a method token of at most
@@ -35,6 +35,23 @@ Theorem parse_print_head : forall https dh (g : greq) extra host auth path query
   Ok (mk_request (g_method g) path query (if g_v11 g then 11 else 10) (g_hmap g) auth extra).
 Proof. exact parse_request_print. Qed.
 
+(** The bare-LF variants the code accepts: the same for a head whose request line ([l0]), header
+    lines ([fl], one flag per line, missing flags = CRLF) and blank line ([lb]) end in a bare LF
+    instead of CRLF, in any mix.  [print_head_e false [] false g = print_head g]. *)
+Theorem parse_print_lf : forall grow mode https dh (max_len : nat) limit (l0 : bool) (fl : list bool) (lb : bool) (g : greq) rest (sched : list nat) e,
+  grow_ok grow -> sched_pos sched -> greq_ok g = true -> (length (print_head_e l0 fl lb g) <= max_len)%nat ->
+  expect https dh limit g rest = Some e ->
+  (N.to_nat (N.min (body_length (g_method g) (g_hmap g)) limit) <= length rest)%nat ->
+  (length (print_head_e l0 fl lb g) + N.to_nat (N.min (body_length (g_method g) (g_hmap g)) limit) <= sum_sched sched)%nat ->
+  exists sv, serve grow mode https dh max_len limit (print_head_e l0 fl lb g ++ rest) sched = Ok sv /\ observed sv = Some e.
+Proof. exact parse_print_lf_lemma. Qed.
+
+Theorem parse_print_head_lf : forall https dh (l0 : bool) (fl : list bool) (lb : bool) (g : greq) extra host auth path query,
+  greq_ok g = true -> g_host dh g = Some host -> parse_uri https host (g_target g) = Some (auth, path, query) ->
+  parse_request https dh (print_head_e l0 fl lb g ++ extra) =
+  Ok (mk_request (g_method g) path query (if g_v11 g then 11 else 10) (g_hmap g) auth extra).
+Proof. exact parse_request_print_e. Qed.
+
 (** Two arbitrary ways of cutting the same bytes into reads (and two growth functions, two end
     modes) give the same request and the same body. *)
 Theorem schedule_independent : forall grow1 grow2 mode1 mode2 https dh (max_len : nat) limit (g : greq) rest (sched1 sched2 : list nat),
@@ -49,6 +66,24 @@ Theorem schedule_independent : forall grow1 grow2 mode1 mode2 https dh (max_len 
     serve grow2 mode2 https dh max_len limit (print_head g ++ rest) sched2 = Ok sv2 /\
     observed sv1 = observed sv2 /\ observed sv1 <> None.
 Proof. exact schedule_independent_lemma. Qed.
+
+(** Beyond the grammar: for EVERY byte stream (malformed heads, bare-LF line ends, anything) what
+    a handler sees -- request fields and body outcome, or the error class -- is [serve_spec] of the
+    delivered bytes [firstn (sum_sched sched) stream]: a function that has no schedule and no
+    capacity in it (head end = first LF CR* LF, the parser run on exactly the head, the body =
+    what follows).  The parser never looks past the blank line. *)
+Theorem segmentation_blind : forall grow mode https dh (max_len : nat) limit stream (sched : list nat),
+  grow_ok grow -> sched_pos sched ->
+  result_view (serve grow mode https dh max_len limit stream sched) =
+  serve_spec mode https dh max_len limit (firstn (sum_sched sched) stream).
+Proof. exact serve_blind_lemma. Qed.
+
+Theorem schedule_independent_any_stream : forall grow1 grow2 mode https dh (max_len : nat) limit stream (sched1 sched2 : list nat),
+  grow_ok grow1 -> grow_ok grow2 -> sched_pos sched1 -> sched_pos sched2 ->
+  firstn (sum_sched sched1) stream = firstn (sum_sched sched2) stream ->
+  result_view (serve grow1 mode https dh max_len limit stream sched1) =
+  result_view (serve grow2 mode https dh max_len limit stream sched2).
+Proof. exact schedule_independent_any_lemma. Qed.
 
 (** No blank line within the first [max_len] bytes (16 384 in kvarn): an error — for every read
     schedule (zero-length reads included), every growth function, every end mode. *)
@@ -89,7 +124,7 @@ Theorem body_any_schedule : forall grow mode early (cl limit : N) stream (sched 
 Proof. exact body_any_schedule. Qed.
 
 (** Non-vacuity *)
-Example grow_meets_hypothesis : grow_ok vec_grow.
+Example vec_grow_keeps_promise : grow_ok vec_grow.
 Proof. exact vec_grow_ok. Qed.
 
 Example head_limit_ex :
@@ -123,3 +158,38 @@ Example parse_print_ex :
      with Ok sv => Some sv | _ => None end) =
   Some (expect false None 65536 ex_req (B "helloGET /next")).
 Proof. split; [vm_compute; reflexivity|]. split; [repeat constructor|]. split; vm_compute; reflexivity. Qed.
+
+(** a malformed stream (bare LF line ends, a header line without colon) cut in two different ways *)
+Example segmentation_blind_ex :
+  let stream := B "GET /x HTTP/1.1" ++ [10] ++ B "Host: h" ++ [10] ++ B "junk" ++ [10; 10] ++ B "tail" in
+  sched_pos [3; 9; 100]%nat /\ sched_pos [1; 1; 1; 40]%nat /\
+  result_view (serve vec_grow 0 false None 64%nat 10 stream [3; 9; 100]%nat) =
+  result_view (serve vec_grow 0 false None 64%nat 10 stream [1; 1; 1; 40]%nat) /\
+  result_view (serve vec_grow 0 false None 64%nat 10 stream [3; 9; 100]%nat) =
+  serve_spec 0 false None 64%nat 10 stream.
+Proof. split; [repeat constructor|]. split; [repeat constructor|]. vm_compute. split; reflexivity. Qed.
+
+Example parse_print_lf_ex :
+  print_head_e false [] false ex_req = print_head ex_req /\
+  print_head_e true [false; true] true ex_req =
+    B "POST /p?x=1 HTTP/1.1" ++ [10] ++ B "Host: ex.org" ++ [13; 10] ++ B "Content-Length:5" ++ [10] ++ B "X-A:   b c" ++ [13; 10; 10] /\
+  option_map observed
+    (match serve vec_grow 0 false None 200%nat 65536 (print_head_e true [false; true] true ex_req ++ B "helloGET /next") [2; 60; 100]%nat
+     with Ok sv => Some sv | _ => None end) =
+  Some (expect false None 65536 ex_req (B "helloGET /next")).
+Proof. split; [apply print_head_e_crlf|]. split; vm_compute; reflexivity. Qed.
+
+Example schedule_independent_ex :
+  let stream := print_head ex_req ++ B "helloGET /next" in
+  sched_pos (repeat 1%nat 80) /\ sched_pos [70; 3; 50]%nat /\
+  option_map observed (match serve vec_grow 0 false None 200%nat 65536 stream (repeat 1%nat 80) with Ok sv => Some sv | _ => None end) =
+  option_map observed (match serve (fun _ len add => (len + add)%nat) 2 false None 200%nat 65536 stream [70; 3; 50]%nat with Ok sv => Some sv | _ => None end) /\
+  (length (print_head ex_req) + 5 <= 80)%nat.
+Proof. split; [repeat constructor|]. split; [repeat constructor|]. vm_compute. split; [reflexivity|repeat constructor]. Qed.
+
+(** a body that is cut short: EOF gives what arrived, a stall the time-out, a failure the I/O error *)
+Example body_short_ex :
+  body_spec 0 (B "ab") 10 100 (B "cd") = Ok (B "abcd") /\ body_spec 1 (B "ab") 10 100 (B "cd") = Err E_TIMEDOUT /\
+  body_spec 2 (B "ab") 10 100 (B "cd") = Err E_IO /\
+  read_to_bytes vec_grow 1 (B "ab") 10 100 (mk_reader (B "cd") [1; 1]%nat) = Err E_TIMEDOUT.
+Proof. vm_compute. repeat split; reflexivity. Qed.
